@@ -33,5 +33,5 @@ MANIFEST = {
     'category': 'other',
     'technique': 'contract-based verification of knot_insertion against Boehm\'s formula by pyvc symbolic execution (loop invariants over the matrix rows, findspan by contract); all other transfers: run-time same-function contracts on the real code over enumerated nested pairs and refinement histories (bounded)',
     'text': 'Proved: knot_insertion(kv,u) for every open knot vector and kv[p] <= u < kv[n]: result is the (n+1) x n matrix with unit rows outside the affected span and rows (1-a_i, a_i), a_i = (u-t_i)/(t_{i+p}-t_i) in [0,1] inside, i.e. Boehm\'s algorithm; no division by zero, no index error. Bounded on the compiled code: knot_insertion and prolongation reproduce the function for degrees 0-6 incl. inserting existing knots and near-degenerate spans; refine() yields nested knot vectors; represent_fine and HSplineFunc (values, Jacobian, Hessian, single point) equal the definition of the hierarchical spline; prolongate_to preserves the function for all pairs of prefixes of exhaustive short and random deep refinement histories (disparity 1, 2, inf); HB virtual-hierarchy prolongators composed from every level span exactly that level\'s space and from level 0 reproduce the tensor-product function; boundary restriction equals the trace; an incrementally refined HSpace with warmed caches stays identical to a freshly built one. THB virtual-hierarchy prolongators on 3+ levels violate the property on the listed histories (known findings).',
-    'note': 'only knot_insertion is proved; everything else bounded. Known findings: THB virtual_hierarchy_prolongators (12 listed histories). Fixed in /repo: prolongate_to under finite disparity.',
+    'note': 'only knot_insertion is proved (plus the cache-invalidation and basis-flag-default obligations on hierarchical.py: truncate=None resolves to the flag of the space, an explicit flag is kept); everything else bounded. Known findings: THB virtual_hierarchy_prolongators (12 listed histories). Fixed in /repo: prolongate_to under finite disparity; prolongation from a one-function space.',
 }
